@@ -1364,7 +1364,7 @@ Qed.
 Lemma NoDup_snoc {A} (l : list A) x : NoDup l -> ~ In x l -> NoDup (l ++ [x]).
 Proof.
   induction l as [|y l IH]; intros Hn Hx; simpl.
-  - constructor; auto. constructor.
+  - repeat constructor; auto.
   - inversion Hn; subst. constructor.
     + intro Hin. apply in_app_or in Hin as [Hin|[<-|[]]]; auto. apply Hx. now left.
     + apply IH; auto. intro. apply Hx. now right.
